@@ -327,6 +327,17 @@ Proof.
   destruct (exec_toc os (init T D)) as [_ Et]. fold s in Et. simpl in Et. split; [congruence|auto].
 Qed.
 
+(* the digest a verification pins is the hash of the whole TOC stream the chunk tables were decoded from *)
+Lemma toc_digest_covers_stream dec stream s0 os d o : (o = VerifyTOC d \/ o = LVerify d) ->
+  open_layer H dec stream = Some s0 ->
+  snd (step H (exec H s0 os) o) = OOk ->
+  d = H stream /\ dec stream = Some (s_toc (exec H s0 os)).
+Proof.
+  unfold open_layer. intros Ho Hop Hr. destruct (dec stream) as [T|] eqn:Ed; [|discriminate Hop].
+  inversion Hop; subst s0. destruct (mount_pins_toc T (H stream) os d o Ho Hr) as [A _].
+  split; [exact A|]. destruct (exec_toc os (init T (H stream))) as [Et _]. rewrite Et. reflexivity.
+Qed.
+
 (* sticky error: once a prefetch recorded a verification failure, no verification can succeed any more *)
 Lemma sticky s os d o : (o = VerifyTOC d \/ o = LVerify d) -> s_lasterr s = true -> snd (step H (exec H s os) o) = OErr.
 Proof.
